@@ -104,6 +104,7 @@ class Recorder:
         self.exact_failures = []       # L0 validation failures: (description)
         self.checks = 0
         self.fault_at = None           # inject a give-up at the k-th check of the current call (C17)
+        self.fault_fired = False
         self.check_index = 0
         self._amask = {}
         self.zvars = [claripy.backends.z3.convert(uni.sym[n]) for n in uni.names]
@@ -134,6 +135,7 @@ class Recorder:
             rec.check_index += 1
             if rec.fault_at is not None and k == rec.fault_at:
                 rec.events.append("C:K")
+                rec.fault_fired = True
                 from claripy.errors import ClaripySolverInterruptError
                 raise ClaripySolverInterruptError("timeout")
             r = orig(solver, extra_constraints, occasion)
@@ -451,7 +453,8 @@ def run_recorded(uni, reg, cls, cfg, hist, faults=None, judge=True):
                     continue
                 rec.events = []
                 rec.check_index = 0
-                rec.fault_at = (faults or {}).get(k)
+                rec.fault_at = d.get("fault")
+                rec.fault_fired = False
                 out = apply_op_ext(uni, solvers, d)
                 rec.fault_at = None
                 outs.append(out)
@@ -459,7 +462,11 @@ def run_recorded(uni, reg, cls, cfg, hist, faults=None, judge=True):
                     ref.add(d["s"], [uni.parse(c) for c in d["cs"]])
                 elif d["op"] == "branch" and out[0] == "ok":
                     ref.branch(d["s"])
-                if judge and d["op"] == "unsat_core":
+                if judge and d.get("fault") is not None and rec.fault_fired:
+                    jf = L.judge_fault(d, out, True)
+                    if jf:
+                        fails.append((k, jf[0], jf[1]))
+                elif judge and d["op"] == "unsat_core":
                     j = L.judge_core(uni, ref, solvers[d["s"]], d, out)
                     if j:
                         fails.append((k, j[0], j[1]))
@@ -467,7 +474,7 @@ def run_recorded(uni, reg, cls, cfg, hist, faults=None, judge=True):
                     jout = out
                     if d["op"] in ("add", "simplify") and out[0] == "ok":
                         jout = ("ok", None)
-                    j = L.judge(uni, ref, d, jout) if not (out[0] == "err" and out[1] in ("ClaripySolverInterruptError",) and faults) else None
+                    j = L.judge(uni, ref, d, jout)
                     if j:
                         fails.append((k, j[0], j[1]))
                 oline = op_line(reg, uni, d)
